@@ -37,8 +37,17 @@ def edits(mmv, open_enums):
             if t["kind"] == "reference" and t["name"] in mmv.E and t["name"] not in open_enums:
                 e = mmv.E[t["name"]]
                 vals = [v["value"] for v in e["values"]]
-                out = "zz-not-a-member" if e["type"]["name"] == "string" else max(vals) + 1000
-                yield sn, pn, "enum", out
+                if e["type"]["name"] == "string":
+                    # far from every member, and NEAR members: other spellings of a declared value (case, surrounding blanks, a proper
+                    # prefix, one more character) that are not declared values themselves
+                    outs = ["zz-not-a-member"]
+                    for v in vals[:3]:
+                        outs += [v.upper(), v.capitalize(), v.swapcase(), " " + v, v + " ", v[:-1], v + "x"]
+                    outs = [o for o in dict.fromkeys(outs) if o not in vals]
+                else:
+                    outs = [max(vals) + 1000] + [o for o in (min(vals) - 1, max(vals) + 1, -max(vals)) if o not in vals]
+                for out in outs:
+                    yield sn, pn, "enum", out
             if t["kind"] == "stringLiteral":
                 lit = t["value"]
                 for v in dict.fromkeys([lit + "x", lit[:-1], lit[1:], "", lit.upper(), " " + lit]):
